@@ -23,7 +23,7 @@ type tally struct {
 }
 
 func newTally() *tally {
-	names := []string{oRejected, oNonDML, oOK, "parse-panic", "print-panic", "reparse-panic", "reparse-fails", "tree-differs", "not-fixpoint", "unverifiable-mysql-interval-string", "literal-altered", "unchanged", "subst-error", "other"}
+	names := []string{oRejected, oNonDML, oOK, "parse-panic", "print-panic", "reparse-panic", "reparse-fails", "tree-differs", "not-fixpoint", "unverifiable-mysql-interval-string", "literal-altered", "identifier-printed-bare", "unchanged", "subst-error", "other"}
 	return &tally{names: names, n: make([]atomic.Int64, len(names))}
 }
 
